@@ -83,7 +83,9 @@ def main():
     # evidence written by these runs must not overwrite the real evidence files
     ev = os.path.join(VERIF, "evidence")
     backup = tempfile.mkdtemp(prefix="verif-ev-")
-    if os.path.isdir(ev):
+    if os.environ.get("VERIF_EVIDENCE"):
+        ev = None  # the checks of this run write their evidence elsewhere: nothing to protect
+    if ev and os.path.isdir(ev):
         shutil.copytree(ev, os.path.join(backup, "evidence"))
     try:
         for m in ms:
@@ -93,7 +95,7 @@ def main():
             if st in ("MISSED", "WRONG-RULE", "BROKEN"):
                 bad += 1
     finally:
-        if os.path.isdir(os.path.join(backup, "evidence")):
+        if ev and os.path.isdir(os.path.join(backup, "evidence")):
             shutil.rmtree(ev, ignore_errors=True)
             shutil.copytree(os.path.join(backup, "evidence"), ev)
         shutil.rmtree(backup, ignore_errors=True)
